@@ -27,7 +27,7 @@ def baseline_off():
     """Build /repo with cmake exactly as the baseline does (guard off) in a scratch dir and run ctest."""
     d = tempfile.mkdtemp(prefix="mir-baseline-")
     try:
-        if subprocess.run(["cmake", "-G", "Ninja", "-S", vlib.REPO, "-B", d]).returncode != 0:
+        if subprocess.run(["cmake", "-G", "Ninja", "-DCMAKE_BUILD_TYPE=RelWithDebInfo", "-S", vlib.REPO, "-B", d]).returncode != 0:
             return 1
         # the optional l2m target does not compile against the installed LLVM in the pinned tree
         # (it is not part of the 45 baseline tests): keep going past it, ctest decides
